@@ -22,6 +22,11 @@ CLAIMS = {
   text="Decides: MAX_ENR_SIZE evaluates to 300; size() is the length of a fresh buffer filled only by the record's own encode; every commit of every mutator is preceded, after its last write to seq/content/signature, by a guard on size(the committed object) whose admitted set is exactly [0,300] (operator-independent, so both off-by-one directions and a dropped or mis-aimed guard are reported); every Err(ExceedsMaxSize) is control-dependent on a guard that holds only above 300; early guards are followed by no content write other than the signer's key; the decoder returns Ok only behind an item-size guard admitting exactly [0,300]; the builder's check is content+signature+c<=300 with 4<=c<=8. Not decided: the numeric coincidence refused<=>exceeded on concrete boundary records (needs evaluation of lengths).",
   note="Trusts: MIR fidelity; RLP header arithmetic (encoded size <= content_len + sig_len + 4 for signatures < 256 bytes); fixed-length built-in signatures; Header::decode_bytes only advances.",
   design="3/C09"),
+ "C10": dict(
+  technique="MIR origin-tree shape matching + record typestate `idd` fact",
+  text="Decides the structural definition of the node id for every key type and every write of a node_id field: NodeId::from(pk) is exactly NodeId(digest(pk.encode_uncompressed())), digest is Keccak-256 over its whole argument copied into [u8;32]; each back-end's encode_uncompressed has the defining shape (k256: x into [..32] and y into [32..] of a 64-byte array, both derived from self; libsecp256k1: serialize_uncompressed()[1..] into 64 bytes; ed25519: the 32-byte key; CombinedPublicKey: delegation to the matching variant); build, decode and clone give the new record the id of the key that is in (or read from) that same record's content; every commit of the 5 core mutators has node_id = NodeId::from(public(k)) for the same k whose public key was stored last in content and that signed it; node_id() is a pure projection. Hence the id depends on the public key alone. Not decided: curve decompression and Keccak arithmetic (library).",
+  note="Trusts: MIR fidelity; sha3/k256/secp256k1/ed25519-dalek compute what their API names say.",
+  design="3/C10"),
 }
 
 checks = []
